@@ -5,6 +5,9 @@ import Mathlib.Order.Defs.LinearOrder
 import Mathlib.Tactic.Set
 import Mathlib.Data.Nat.Basic
 import Mathlib.Data.List.Induction
+import Mathlib.Algebra.Order.Field.Rat
+import Mathlib.Tactic.FieldSimp
+import Mathlib.Tactic.Ring
 
 /-!
 # C04 — Every PSM feature equals its definition recomputed from spectrum and peptide
@@ -467,6 +470,101 @@ theorem matched_sublist (E : Env α β) (sel : α → Option (Peak α)) (P : Kin
       | true => simp only [List.filter_cons, hk, ↓reduceIte, List.map_cons]; exact ih.cons_cons _
       | false => simpa [List.filter_cons, hk] using ih
 
+/-! ### the counter on an ARBITRARY index sequence -/
+
+theorem ladderGo_ge (len cur : Nat) (l : List Nat) : len ≤ ladderGo len cur l := by
+  induction l generalizing len cur with
+  | nil => simp [ladderGo]
+  | cons b t ih =>
+    unfold ladderGo
+    split
+    · exact ih _ _
+    · split
+      · have := ih (len + 1) b; omega
+      · omega
+
+theorem ladderGo_mono (len len' cur : Nat) (l : List Nat) (h : len ≤ len') :
+    ladderGo len cur l ≤ ladderGo len' cur l := by
+  induction l generalizing len len' cur with
+  | nil => simpa [ladderGo]
+  | cons b t ih =>
+    unfold ladderGo
+    split
+    · exact ih _ _ _ h
+    · split
+      · exact ih _ _ _ (by omega)
+      · exact h
+
+/-- a "live" counter (it has seen at least one index) -/
+structure Live (r : Run) : Prop where
+  pos : 0 < r.length
+  span : r.start + r.length = r.last + 1
+  lenLe : r.length ≤ r.longest
+
+theorem foldl_live (l : List Nat) (r : Run) (hr : Live r) :
+    (l.foldl Run.matched r).longest = max r.longest (max (ladderGo r.length r.last l) (specLongestSeq l)) := by
+  induction l generalizing r with
+  | nil =>
+    have := hr.lenLe
+    simp only [List.foldl_nil, ladderGo, specLongestSeq]; omega
+  | cons b t ih =>
+    have hpos := hr.pos
+    have hspan := hr.span
+    have hle := hr.lenLe
+    simp only [List.foldl_cons]
+    have hspec : specLongestSeq (b :: t) = max (ladderGo 1 b t) (specLongestSeq t) := rfl
+    by_cases h1 : r.last = b
+    · have hm : r.matched b = r := by unfold Run.matched; simp [hpos, h1]
+      rw [hm, ih r hr, hspec]
+      have hgo : ladderGo r.length r.last (b :: t) = ladderGo r.length b t := by
+        rw [ladderGo]; simp [h1]
+      have hmono := ladderGo_mono 1 r.length b t (by omega)
+      rw [hgo, h1]; omega
+    · by_cases h2 : r.start + r.length = b
+      · have hm : r.matched b = { r with length := r.length + 1, longest := max r.longest (r.length + 1), last := b } := by
+          unfold Run.matched
+          have : ¬ (0 < r.length ∧ r.last = b) := fun h => h1 h.2
+          simp [this, h2]
+        have hlive : Live (r.matched b) := by
+          rw [hm]; exact ⟨by simp, by simp only; omega, by simp only; omega⟩
+        rw [ih _ hlive, hm, hspec]
+        simp only
+        have hb : b = r.last + 1 := by omega
+        have hgo : ladderGo r.length r.last (b :: t) = ladderGo (r.length + 1) b t := by
+          rw [ladderGo]
+          have : ¬ b = r.last := by omega
+          simp [hb]
+        have hmono := ladderGo_mono 1 (r.length + 1) b t (by omega)
+        have hge := ladderGo_ge (r.length + 1) b t
+        rw [hgo]; omega
+      · have hm : r.matched b = { start := b, length := 1, longest := max r.longest 1, last := b } := by
+          unfold Run.matched
+          have : ¬ (0 < r.length ∧ r.last = b) := fun h => h1 h.2
+          simp [this, h2]
+        have hlive : Live (r.matched b) := by
+          rw [hm]; exact ⟨by simp, by simp, by simp only; omega⟩
+        rw [ih _ hlive, hm, hspec]
+        simp only
+        have hgo : ladderGo r.length r.last (b :: t) = r.length := by
+          rw [ladderGo]
+          have h3 : ¬ b = r.last := fun h => h1 h.symm
+          have h4 : ¬ b = r.last + 1 := by omega
+          simp [h3, h4]
+        have hge := ladderGo_ge 1 b t
+        rw [hgo]; omega
+
+/-- the matched set of a concatenation is the concatenation of the matched sets -/
+theorem specMatches_append (E : Env α β) (sel : α → Option (Peak α)) (a b : List (FZ α)) :
+    specMatches E sel (a ++ b) = specMatches E sel a ++ specMatches E sel b := by
+  simp [specMatches, List.filterMap_append]
+
+theorem specMatches_mem (E : Env α β) (sel : α → Option (Peak α)) (l : List (FZ α)) :
+    ∀ m ∈ specMatches E sel l, m.fz ∈ l := by
+  intro m hm
+  simp only [specMatches, List.mem_filterMap, Option.map_eq_some_iff] at hm
+  obtain ⟨f, hf, _, _, rfl⟩ := hm
+  exact hf
+
 /-! ### `select_most_intense_peak` -/
 
 section select
@@ -842,5 +940,176 @@ theorem longest_spec (E : Env α β) (sel : α → Option (Peak α)) (series : L
     exact (sorted_idx (fun k => !k.isN) series mfc hC).sublist (matched_sublist E sel (fun k => !k.isN) _)
 
 example : (exSeries.filter (fun ks => ks.1.isN)).length ≤ 1 ∧ (exSeries.filter (fun ks => !ks.1.isN)).length ≤ 1 := by decide
+
+/-- **C04.run_seq_spec** — what the ladder counter computes on an ARBITRARY index sequence (no order assumed):
+the length of the longest ladder `s, s+1, s+2, …` that occurs as a CONTIGUOUS stretch of the sequence, adjacent
+repeats allowed (`specLongestSeq`: from every start position walk on while the next index equals the current
+one or its successor). On ascending sequences this is the longest block of consecutive indices
+(`run_spec_exec`); on others it is not — `[3,0,1,2]` gives 3, `[0,1,2,3]` gives 4. -/
+theorem run_seq_spec (S : List Nat) : (runFold S).longest = specLongestSeq S := by
+  cases S with
+  | nil => rfl
+  | cons a t =>
+    have hm : (({} : Run).matched a) = { start := a, length := 1, last := a, longest := 1 } := by
+      unfold Run.matched
+      by_cases h0 : a = 0
+      · subst h0; simp
+      · have : ¬ (0 = a) := fun h => h0 h.symm
+        simp [this]
+    have hlive : Live (({} : Run).matched a) := by rw [hm]; exact ⟨by simp, by simp, by simp⟩
+    simp only [runFold, List.foldl_cons]
+    rw [foldl_live t _ hlive, hm]
+    simp only
+    have hge := ladderGo_ge 1 a t
+    have hspec : specLongestSeq (a :: t) = max (ladderGo 1 a t) (specLongestSeq t) := rfl
+    rw [hspec]; omega
+
+example : specLongestSeq [3, 0, 1, 2] = 3 ∧ specLongestSeq [0, 1, 2, 3] = 4 := by decide
+example : (runFold [3, 0, 1, 2]).longest = 3 ∧ (runFold [0, 1, 2, 3]).longest = 4 := by decide
+/-- two kinds each matched at indices 0,1 (charges repeated): the shared counter reports 2, and the block
+    definition on the (unsorted) concatenation agrees here; with a: {0,1}, b: {2,3} it reports 4 although no
+    single series has a ladder longer than 2 -/
+example : specLongestSeq [0, 0, 1, 0, 1, 1] = 2 ∧ specLongestSeq [0, 1, 2, 2, 3] = 4 := by decide
+
+/-- **C04.idx_concat** — the index sequence fed to one terminus' counter is the CONCATENATION, in the order the
+kinds are configured, of the matched ion indices of each configured kind of that terminus (each ascending, each
+index repeated once per matched charge): with several kinds per terminus the sequence restarts at every kind,
+and the order of `ion_kinds` matters. -/
+theorem idx_concat (E : Env α β) (sel : α → Option (Peak α)) (P : Kind → Bool) (series : List (Kind × List α)) (mfc : Nat) :
+    ((specMatches E sel (fragCharges series mfc)).filter (fun m => P m.fz.kind)).map (·.fz.idx) =
+    series.flatMap (fun ks => if P ks.1 then (specMatches E sel (oneSeries ks mfc)).map (·.fz.idx) else []) := by
+  induction series with
+  | nil => simp [fragCharges, specMatches]
+  | cons ks rest ih =>
+    rw [fragCharges_cons, specMatches_append, List.filter_append, List.map_append, ih, List.flatMap_cons]
+    congr 1
+    cases hk : P ks.1 with
+    | true =>
+      simp only [↓reduceIte]
+      congr 1
+      rw [List.filter_eq_self]
+      intro m hm
+      rw [oneSeries_kind ks mfc m.fz (specMatches_mem E sel _ m hm), hk]
+    | false =>
+      simp only [Bool.false_eq_true, ↓reduceIte, List.map_eq_nil_iff, List.filter_eq_nil_iff]
+      intro m hm
+      rw [oneSeries_kind ks mfc m.fz (specMatches_mem E sel _ m hm), hk]
+      simp
+
+/-- **C04.longest_seq_spec** — for EVERY set of configured kinds (several per terminus included), every
+environment and selector: the reported `longest_b` (`longest_y`) is the longest contiguous ladder
+(`specLongestSeq`) of the concatenated per-kind matched-index sequences of that terminus (`idx_concat`). This is
+what `longest_b` IS when a, b and c ions share one `Run`; it equals the longest block of consecutive matched
+indices when only one kind feeds the counter (`longest_spec`). -/
+theorem longest_seq_spec (E : Env α β) (sel : α → Option (Peak α)) (series : List (Kind × List α))
+    (n mfc : Nat) (openms annotate : Bool) :
+    let s := scoreCandidate E sel series n mfc openms annotate
+    let v : SpecVals α β := specVals E n (specMatches E sel (fragCharges series mfc))
+    s.longestB = specLongestSeq v.idxB ∧ s.longestY = specLongestSeq v.idxY := by
+  have h := scoreCandidate_spec E sel series n mfc openms annotate
+  simp only at h
+  obtain ⟨-, -, -, -, h5, h6, -⟩ := h
+  simp only
+  rw [h5, h6]
+  exact ⟨run_seq_spec _, run_seq_spec _⟩
+
+/-- non-vacuity: a ions matched at index 2 only and b ions at 0,1 — kinds listed [a, b] vs [b, a] -/
+def exSelAB (mz : Int) : Option (Peak Int) :=
+  selectFrom 0 (([⟨100, 5⟩, ⟨200, 7⟩, ⟨1300, 9⟩] : List (Peak Int)).filter (inWin (mz - 1) (mz + 1)))
+example :
+    (scoreCandidate exEnv exSelAB [(.a, [1100, 1200, 1300]), (.b, [100, 200, 300])] 4 2 false false).longestB = 2 ∧
+    (scoreCandidate exEnv exSelAB [(.b, [100, 200, 300]), (.a, [1100, 1200, 1300])] 4 2 false false).longestB = 3 := by
+  decide +kernel
+
+/-- **C04.feature_spec** — every closed-form column of a reported PSM equals its definition, for every
+arithmetic environment: with `v` the naive counts of the matched set (`counts_spec`), `pre` the preliminary hit
+(peptide, the charge it was SEARCHED under, isotope error `k`), `precMz` the precursor m/z, `mono` the peptide
+mass, `tic` the total ion current and `n` the peptide length,
+
+* `charge` is the searched charge and `expmass = (precMz − PROTON) · charge` with THAT charge;
+* `isotope_error = k · NEUTRON`; `calcmass = mono`;
+* `delta_mass = (expmass − mono − k·NEUTRON) · 2e6 / (expmass − k·NEUTRON + mono)` (precursor ppm error);
+* `matched_peaks = nb + ny`; `ms2_intensity = Ib + Iy`; `matched_intensity_pct = 100 · (Ib + Iy) / TIC`;
+* `longest_y_pct = longest_y / n` with `longest_y` the ladder value of `longest_seq_spec`;
+* `average_ppm = (Σ int·|mz−mass|·2e6/(mz+mass)) / (Ib + Iy)`; the fragment list is the naive row list;
+* `scored_candidates` and `peptide_len` are passed through. -/
+theorem feature_spec (E : Env α β) (sel : α → Option (Peak α)) (series : List (Kind × List α))
+    (pre : Pre) (n mfc : Nat) (openms annotate : Bool) (precMz mono tic : α) (totalMatched nScored : Nat) :
+    let f := feature E pre (scoreCandidate E sel series n mfc openms annotate) n precMz mono tic totalMatched nScored
+    let v : SpecVals α β := specVals E n (specMatches E sel (fragCharges series mfc))
+    let pm := E.mul (E.sub precMz E.proton) (E.ofNat pre.charge)
+    let iso := E.mul (ofInt E pre.iso) E.neutron
+    f.pep = pre.pep ∧ f.charge = pre.charge ∧ f.expmass = pm ∧ f.calcmass = mono ∧ f.isotopeError = iso ∧
+    f.deltaMass = E.div (E.mul (E.sub (E.sub pm mono) iso) (E.ofNat 2000000)) (E.add (E.sub pm iso) mono) ∧
+    f.matchedPeaks = v.nb + v.ny ∧ f.ms2Intensity = E.add v.ib v.iy ∧
+    f.matchedIntensityPct = E.div (E.mul (E.ofNat 100) (E.add v.ib v.iy)) tic ∧
+    f.longestB = specLongestSeq v.idxB ∧ f.longestY = specLongestSeq v.idxY ∧
+    f.longestYPct = E.div (E.ofNat (specLongestSeq v.idxY)) (E.ofNat n) ∧
+    f.averagePpm = E.div v.ppmNum (E.add v.ib v.iy) ∧
+    f.ann = (if annotate then some v.rows else none) ∧
+    f.scoredCandidates = nScored ∧ f.peptideLen = n := by
+  have h := scoreCandidate_spec E sel series n mfc openms annotate
+  have hl := longest_seq_spec E sel series n mfc openms annotate
+  simp only at h hl
+  obtain ⟨h1, h2, h3, h4, -, -, h7, h8⟩ := h
+  obtain ⟨hl1, hl2⟩ := hl
+  simp only [feature, h1, h2, h3, h4, h7, h8, hl1, hl2, and_self]
+
+/-- `feature_spec`'s hyperscore column (score type `SageHyperScore`): the pinned function of the naive counts -/
+theorem feature_hyperscore (E : Env α β) (sel : α → Option (Peak α)) (series : List (Kind × List α))
+    (pre : Pre) (n mfc : Nat) (annotate : Bool) (precMz mono tic : α) (totalMatched nScored : Nat) :
+    let v : SpecVals α β := specVals E n (specMatches E sel (fragCharges series mfc))
+    (feature E pre (scoreCandidate E sel series n mfc false annotate) n precMz mono tic totalMatched nScored).hyperscore
+      = specHyperscore E v.nb v.ny v.ib v.iy :=
+  hyperscore_def E sel series n mfc annotate
+
+/-- non-vacuity of `feature_spec` (toy integer environment, PROTON = NEUTRON = 1): precursor m/z 501, searched
+    charge 3, isotope error 1 → expmass (501−1)·3 = 1500, isotope_error 1, delta_mass (1500−1490−1)·2e6/(1500−1+1490),
+    matched_peaks 3, ms2_intensity 17, matched_intensity_pct 100·17/34 = 50, longest_y_pct 1/4 -/
+example :
+    let f := feature exEnv { pep := 0, charge := 3, iso := 1, matched := 2 }
+      (scoreCandidate exEnv exSel exSeries 4 2 false false) 4 501 1490 34 2 1
+    f.charge = 3 ∧ f.expmass = 1500 ∧ f.isotopeError = 1 ∧ f.deltaMass = (9 * 2000000) / 2989 ∧
+    f.matchedPeaks = 3 ∧ f.ms2Intensity = 17 ∧ f.matchedIntensityPct = 50 ∧ f.longestYPct = 1 / 4 := by
+  decide +kernel
+
+/-- exact rational arithmetic (the transcendental fields are irrelevant here) -/
+def envQ : Env Rat Rat :=
+  { add := (· + ·), sub := (· - ·), mul := (· * ·), div := (· / ·), abs := fun x => if x < 0 then -x else x,
+    neg := fun x => -x, ofNat := fun n => (n : Rat), proton := Sage.Gen.PROTON, neutron := Sage.Gen.NEUTRON, cast := id,
+    addD := (· + ·), subD := (· - ·), mulD := (· * ·), divD := (· / ·), negD := fun x => -x,
+    ofNatD := fun n => (n : Rat), half := 1 / 2, pi := 355 / 113, tiny := 0, ln := id, exp := id, log10 := id, ln1p := id,
+    isFinite := fun _ => true, isInf := fun _ => false }
+
+/-- **C04.delta_mass_ppm** — in exact arithmetic the `delta_mass` column IS the precursor error in ppm relative
+to the mean of observed and calculated mass: with `obs = (precMz − PROTON)·charge − k·NEUTRON` (the observed
+mass corrected for the isotope error) and `calc = mono`, `delta_mass = 10⁶ · (obs − calc) / ((obs + calc)/2)`. -/
+theorem delta_mass_ppm (pre : Pre) (s : Scored Rat Rat) (n : Nat) (precMz mono tic : Rat) (tm ns : Nat)
+    (hD : ((precMz - Sage.Gen.PROTON) * (pre.charge : Rat) - (ofInt envQ pre.iso) * Sage.Gen.NEUTRON) + mono ≠ 0) :
+    let obs := (precMz - Sage.Gen.PROTON) * (pre.charge : Rat) - (ofInt envQ pre.iso) * Sage.Gen.NEUTRON
+    (feature envQ pre s n precMz mono tic tm ns).deltaMass = 1000000 * (obs - mono) / ((obs + mono) / 2) := by
+  simp only [feature, envQ] at hD ⊢
+  field_simp
+  ring
+
+/-- `isotope_error as f32` is the integer `k` itself in exact arithmetic -/
+theorem ofInt_envQ (k : Int) : ofInt envQ k = (k : Rat) := by
+  unfold ofInt
+  split
+  · rename_i h
+    simp only [envQ]
+    have : (k.natAbs : Int) = -k := by omega
+    have h2 : ((k.natAbs : Nat) : Rat) = ((k.natAbs : Int) : Rat) := by simp
+    rw [h2, this]; simp
+  · rename_i h
+    simp only [envQ]
+    have : (k.natAbs : Int) = k := by omega
+    have h2 : ((k.natAbs : Nat) : Rat) = ((k.natAbs : Int) : Rat) := by simp
+    rw [h2, this]
+
+/-- non-vacuity of `delta_mass_ppm`: the denominator hypothesis holds for m/z 501, charge 3, isotope error 1,
+    peptide mass 1490 -/
+example : ((501 : Rat) - Sage.Gen.PROTON) * ((3 : Nat) : Rat) - (ofInt envQ 1) * Sage.Gen.NEUTRON + 1490 ≠ 0 := by
+  rw [ofInt_envQ]; norm_num [Sage.Gen.PROTON, Sage.Gen.NEUTRON]
 
 end Sage.C04
